@@ -238,7 +238,7 @@ def run_shape(shape, tier):
                     if okq:
                         f = ph.unit.to(units.one)
                         ts = d._t_bmjd.a
-                        want = _phases(list(ts), ref._v, P)
+                        want = _phases(list(ts), ref.tcb._v, P)
                         cl = z3.And([L(cells[i] * f) == L(want[i]) for i in range(len(ts))])
                     else:
                         cl = z3.BoolVal(False)
